@@ -9,6 +9,42 @@ import cvtcases
 PID = "C01"
 
 
+def encoding_stage(tier, v):
+    """ZZI.tla: the logarithmic SOS2 encoding (PL -> SOS2 -> linear rows).  Design check (it IS an SOS2 encoding for
+    d = 2..8), then every history of up to three sets converted by one converter object: the columns the real encoder
+    returns are the ones of the spec, whatever was converted before."""
+    sd = os.path.join(SPECS, "flat")
+    mc = tlc("MCZZI", "MCZZI.cfg", cwd=sd, workers=NPROC)
+    tlc_must_pass(mc, "MCZZI")
+    hists = sorted((c["h"] for c in printed_json(mc, "CASE")), key=lambda h: (len(h), h))
+    if len(hists) != 8 + 64 + 512:
+        raise Broken("MCZZI produced %d histories" % len(hists))
+    d = outdir(PID)
+    hp, tp = os.path.join(d, "zzi-hist.txt"), os.path.join(d, "zzi-%s.ndjson" % tier)
+    with open(hp, "w") as f:
+        for h in hists:
+            f.write(" ".join(map(str, h)) + "\n")
+    exe = targets.get("h_zzi")
+    rc, so, se = run_harness(exe, [hp, tp], timeout=300)
+    lines = sanitize_trace(tp, rc, se)
+    ok, res = validate_trace("TraceZZI", "TraceZZI.cfg", tp, cwd=sd)
+    done = printed_json(res, "DONE")
+    if len(done) != 1 or done[0]["n"] != len(lines):
+        raise Broken("TraceZZI did not consume the trace\n" + res.out[-2000:])
+    if len(lines) < 1500:
+        raise Broken("h_zzi recorded only %d sets" % len(lines))
+    seen = set()
+    for b in printed_json(res, "BAD"):
+        key = "zzi:d%d:%s" % (b["d"], "first" if b["pos"] == 1 else "later")
+        if key in seen:
+            continue
+        seen.add(key)
+        v.violation(key, "the rows the ZZI encoder gives for an SOS2 set with %d members (set %d of the history %s) do not encode SOS2: lower %s, upper %s"
+                    % (b["d"] + 1, b["pos"], hists[b["hist"] - 1] if b["hist"] else "?", b["lo"], b["hi"]), b)
+    return {"histories": len(hists), "calls": len(lines), "states": mc.distinct + res.distinct, "transitions": mc.generated + res.generated,
+            "bad": len(printed_json(res, "BAD"))}
+
+
 def run(tier):
     t0 = time.time()
     exe = targets.get("h_drv_asan" if tier == "thorough" else "h_drv")   # thorough: ASan/UBSan build
@@ -49,6 +85,10 @@ def run(tier):
     lin_only = [c_ for c_ in configs[0] if c_[0] == "mip-linear"][0]
     for g in rndc.sample(pls, min(len(pls), 3000 if tier == "thorough" else 300)):
         cases.append({"id": len(cases), "gen": g, "cfgname": lin_only[0], "opts": list(lin_only[1])})
+    # two equality comparisons of one variable whose constants differ by 1/2 (all of them, rotating configurations)
+    for j_, g in enumerate(g_ for g_ in gen if g_["kind"] == "eqpair"):
+        name, opts = configs[0][j_ % len(configs[0])]
+        cases.append({"id": len(cases), "gen": g, "cfgname": name, "opts": list(opts)})
     recs, stats = cvtcases.run_and_record(exe, PID, cases)
     res = validate_parallel("TraceReform", "TraceReform.cfg", recs, os.path.join(SPECS, "flat"), "c01")
     verdicts = [v for r in res for v in printed_json(r, "VERDICT")]
@@ -67,13 +107,14 @@ def run(tier):
                     {"gen": g, "opts": c.get("opts"), "verdict": vd})
     if len(verdicts) != len(recs):
         raise Broken("verdict count %d != record count %d" % (len(verdicts), len(recs)))
+    zzi = encoding_stage(tier, v)
     rcode, nnew = v.finish()
     write_evidence(PID, tier, {
         "states": gres.distinct + sum(r.distinct for r in res), "transitions": gres.generated + sum(r.generated for r in res),
         "traces_validated_against_impl": len(recs),
         "samples": [{"gen": {k: cases[i]["gen"][k] for k in ("kind", "op", "sh", "pat", "use", "k")}, "config": cases[i]["cfgname"], "opts": cases[i]["opts"]} for i in (0, len(cases) // 2, len(cases) - 1)],
         "evaluations": len(recs), "verdicts": tally, "generated_models": len(gen), "configs": [c[0] for c in configs[0]],
-        "run_stats": stats,
+        "run_stats": stats, "encoding_stage": zzi,
         "explanation": "TLC generates the abstract models (GenNL.tla); each sampled (model, acceptance/option configuration) is converted by the real driver; TLC evaluates NL model and delivered model at every grid point of the original domain, searching auxiliary values (FlatSem.tla/Reform.tla)",
         "violations_new": nnew,
     }, time.time() - t0, violations=nnew,
